@@ -184,6 +184,7 @@ def run(rep):
     rule_isa(rep)
     rule_kill_discipline(rep)
     rule_deletion_flags(rep)
+    rule_tracked_arithmetic(rep)
 
 
 # ---- R2: ISA tables that asm DCE / move elimination / the propagators' reset-on-def rely on ---------------------------
@@ -424,4 +425,49 @@ def rule_deletion_flags(rep):
                    "instruction, MOVE and NOOP included, resets $of/$err, so deleting one (instead of overwriting it with NOOP) changes what a following "
                    "direct read of $of/$err sees")
     rep.floor("R4-deletion-accounts-for-flag-registers", 3, n)  # dce, simplify_cfg, remove_redundant_ops
+
+
+def rule_tracked_arithmetic(rep):
+    """R5: the const-indexed-aggregate tracker computes with the 64-bit contents it believes registers to hold. Every `a + b` / `a * b` /
+    `a - b` / `a << b` on such values sits in a match arm (or if) whose guard establishes with the matching `checked_*` call on the
+    same operands that the result fits (the pattern process_add uses); an unguarded one panics a debug-built compiler and wraps
+    silently in a release-built one (findings/F21)."""
+    rel = "sway-core/src/asm_generation/fuel/optimizations/const_indexed_aggregates.rs"
+    t = tab.tree(rel)
+    OPS = {"+": "checked_add", "*": "checked_mul", "-": "checked_sub", "<<": "checked_shl"}
+    n = 0
+
+    def guards_of(root, target):
+        out = []
+        stack = [(root, [])]
+        while stack:
+            node, path = stack.pop()
+            if node is target:
+                for a in path:
+                    if a.get("guard") is not None and "pat" in a:
+                        out.append(tab.show(a["guard"]))
+                    if a.get("k") == "If":
+                        out.append(tab.show(a["cond"]))
+                return out
+            for v in (node.values() if isinstance(node, dict) else node if isinstance(node, list) else []):
+                if isinstance(v, (dict, list)):
+                    stack.append((v, path + ([node] if isinstance(node, dict) else [])))
+        return out
+    for f in [x for x in tab.walk(t) if x.get("k") == "Fn" and x.get("body")]:
+        if any("test" in str(a) for a in f.get("attrs", [])):
+            continue
+        for b in [x for x in tab.walk(f["body"]) if x.get("k") == "Binary" and x["op"] in OPS]:
+            l_, r_ = tab.show(b["left"]).lstrip("*&"), tab.show(b["right"]).lstrip("*&")
+            if not (re.fullmatch(r"\w+", l_) and re.fullmatch(r"\w+", r_)):
+                continue  # only value-with-value arithmetic on bound names (c1 * c2, offset + c2)
+            if re.fullmatch(r"\d+", l_) or re.fullmatch(r"\d+", r_):
+                continue
+            n += 1
+            gs = guards_of(f["body"], b)
+            want = OPS[b["op"]]
+            ok = any(re.search(r"\b%s\.%s\(\*?&?%s\)\.is_some\(\)" % (re.escape(l_), want, re.escape(r_)), g) for g in gs)
+            rep.ob("R5-tracked-arithmetic-is-checked", f"{f['name']}|{l_}{b['op']}{r_}", ok, rel, b["l"],
+                   f"`{l_} {b['op']} {r_}` on tracked register contents is not guarded by `{l_}.{want}({r_}).is_some()`: the product / sum of two known constants "
+                   "can exceed 64 bits (a debug-built compiler panics, a release-built one tracks a wrapped value)")
+    rep.floor("R5-tracked-arithmetic-is-checked", 3, n)
 
